@@ -92,6 +92,21 @@ Theorem C05_escape_key_toml_ok : forall s,
   toml_bare_key (escape_key_toml s) \/ quoted toml_basic_chars (escape_key_toml s).
 Proof. exact escape_key_toml_ok. Qed.
 
+(* YAML plain keys: what the predicate guarantees ... *)
+Theorem C05_safe_yaml_plain_chars : forall s, is_safe_yaml_plain s = true ->
+  s <> [] /\ Forall (fun c => yaml_plain_char c = true) s
+  /\ existsb (eq_ignore_ascii_case s) yaml_special = false.
+Proof. exact safe_yaml_plain_chars. Qed.
+
+(* ... and what it does not: the full statement (a key accepted as plain is read back as a
+   string by a YAML 1.2 core-schema loader) is false of the code as written — 1e5, 0o17 *)
+Definition C05_goal_yaml_plain : Prop :=
+  forall s, is_safe_yaml_plain s = true -> yaml12_core_nonstring s = false.
+
+Theorem C05_safe_yaml_plain_core_string_refuted :
+  exists s, is_safe_yaml_plain s = true /\ yaml12_core_nonstring s = true.
+Proof. exact safe_yaml_plain_core_string_refuted. Qed.
+
 (* ---- non-vacuity ---- *)
 (* a printer/reader pair given by a table, a value with nesting, empty containers, keys and
    strings that need escapes (U+001A, quote, backslash, U+007F) and non-integer doubles:
@@ -148,5 +163,7 @@ Print Assumptions C05_toml_basic_string_ok.
 Print Assumptions C05_python_string_ok.
 Print Assumptions C05_safe_toml_plain_sound.
 Print Assumptions C05_escape_key_toml_ok.
+Print Assumptions C05_safe_yaml_plain_chars.
+Print Assumptions C05_safe_yaml_plain_core_string_refuted.
 Print Assumptions C05_nonvacuous_hyps.
 Print Assumptions C05_nonvacuous_runs.
